@@ -497,8 +497,11 @@ func (x *Exec) applyContract(fr *frame, st *State, ct *gcl.Contract, sig *types.
 		x.noteTrusted("assumed contract: " + shortName(what) + " (" + shortFile(ct.File) + ")")
 	}
 	pre := st.clone()
+	var side []smt.T
 	for i, r := range ct.Requires {
-		t, err := x.evalExpr(r.E, &evalCtx{st: st, old: pre, env: env, pkg: ct.Pkg})
+		t, err := x.evalExpr(r.E, &evalCtx{st: st, old: pre, env: env, pkg: ct.Pkg, side: &side})
+		st.assume(dedup(side)...)
+		side = nil
 		if err != nil {
 			x.fatal("requires of %s: %v", what, err)
 			continue
@@ -548,13 +551,14 @@ func (x *Exec) applyContract(fr *frame, st *State, ct *gcl.Contract, sig *types.
 		st.refs = append(st.refs, r)
 	}
 	for _, e := range ct.Ensures {
-		t, err := x.evalExpr(e.E, &evalCtx{st: st, old: pre, env: env, pkg: ct.Pkg})
+		t, err := x.evalExpr(e.E, &evalCtx{st: st, old: pre, env: env, pkg: ct.Pkg, side: &side})
 		if err != nil {
 			x.fatal("ensures of %s: %v", what, err)
 			continue
 		}
 		st.assume(t)
 	}
+	st.assume(dedup(side)...)
 	if ct.Panics == "always" {
 		return []outcome{{st: st, panicked: true}}
 	}
@@ -676,7 +680,9 @@ func (x *Exec) havocLoc(st *State, loc string, env map[string]binding, pkg strin
 			if sl, ok := e.typ.Underlying().(*types.Slice); ok && !isAggregate(sl.Elem()) {
 				hn, hs := x.elemHeap(sl.Elem())
 				h := x.heap(st, hn, hs)
-				st.heaps[hn] = smt.Store(h, sArr(e.t), x.ctx.Fresh("arr", smt.ArraySort(smt.Int, x.sortOf(sl.Elem()))))
+				// a nil slice has no array: nothing changes then
+				nv := smt.Ite(smt.Eq(sArr(e.t), smt.IntLit(0)), smt.Select(h, smt.IntLit(0)), x.ctx.Fresh("arr", smt.ArraySort(smt.Int, x.sortOf(sl.Elem()))))
+				st.heaps[hn] = smt.Store(h, sArr(e.t), nv)
 				return
 			}
 		}
